@@ -99,7 +99,114 @@ def correspond(ctx):
                     o_rt.check(name + ":parsehash", False, {"op": "parsehash", "hasher": name, "hash": hs}, errname(e), "no error")
     if skipped:
         ctx.notes.append("round-trip oracle skipped: " + ", ".join(skipped))
-    return merge(s_fmt, o_rt)
+    o_nc = Oracle(ctx, "normalisations-definition-lists-layout-switches")
+    for gen in (noncanonical_cases(rng, ctx.thorough), libpass_phc_cases(rng), class_switch_cases(rng)):
+        for tag, inp, ok, obs, exp in gen:
+            o_nc.check(tag, ok, inp, obs, exp)
+    return merge(s_fmt, o_rt, o_nc)
+
+
+def noncanonical_cases(rng, thorough=False):
+    """documented normalisations on the real code: a re-encoding of the very same bits (stray padding bits in bcrypt's salt / digest, hex
+    letter case) parses, re-renders to the canonical string and verifies the same password; yields (tag, input, ok, observed, expected)"""
+    from passlib.utils.binary import bcrypt64
+
+    cm = bcrypt64.charmap
+    for name in ("bcrypt", "ldap_bcrypt", "django_bcrypt", "bcrypt_sha256", "django_bcrypt_sha256"):
+        h = fc.handler(name)
+        for _ in range(3 if not thorough else 12):
+            idents = [i for i in getattr(getattr(h, "wrapped", h), "ident_values", ()) if "2x" not in i and i != "$2$"] or [None]
+            ident = rng.choice(idents)
+            kw = {"rounds": 4}
+            if ident and name not in ("bcrypt_sha256", "django_bcrypt_sha256"):
+                kw["ident"] = ident
+            pw = "".join(rng.choice("abcXYZ019 é") for _ in range(rng.randrange(0, 20)))
+            hs = h.using(**kw).hash(pw)
+            salt_end = len(hs) - 32 if hs[-32] == "$" else len(hs) - 31
+            i = salt_end - 1
+            ci = cm.index(hs[i])
+            for k in rng.sample(range(1, 16), 3 if not thorough else 15):
+                v = hs[:i] + cm[(ci & 0x30) | ((ci & 0x0F) ^ k)] + hs[i + 1:]
+                inp = {"op": "noncanonical", "hasher": name, "hash": v, "canonical": hs, "secret": pw}
+                target = h if hasattr(h, "from_string") else None
+                try:
+                    back = target.from_string(v).to_string() if target is not None else h._wrap_hash(h.wrapped.from_string(h._unwrap_hash(v)).to_string())
+                    obs = (back, h.identify(v), h.verify(pw, v), h.verify(pw + "x", v))
+                except Exception as e:  # noqa: BLE001
+                    obs = errname(e) + ": " + str(e)[:80]
+                yield ("padding-bits:" + name, inp, obs == (hs, True, True, False), obs, (hs, True, True, False))
+    for name in ("hex_md5", "hex_sha1", "hex_sha256", "hex_sha512", "hex_md4", "ldap_hex_md5", "ldap_hex_sha1", "mssql2000", "mssql2005", "oracle11", "mysql41", "lmhash", "nthash", "msdcc", "msdcc2", "postgres_md5"):
+        h = fc.handler(name)
+        kw = {"user": "user"} if "user" in (h.context_kwds or ()) else {}
+        hs = h.hash("pw", **kw)
+        for v in {hs.upper(), hs.lower(), hs.swapcase()} - {hs}:
+            if name == "postgres_md5" and not v.startswith("md5"):
+                continue
+            if name in ("ldap_hex_md5", "ldap_hex_sha1") and not v.startswith(hs[: hs.index("}") + 1]):
+                v = hs[: hs.index("}") + 1] + v[hs.index("}") + 1:]
+            if name in ("mssql2000", "mssql2005") and not v.startswith("0x"):
+                v = "0x" + v[2:]
+            inp = {"op": "noncanonical", "hasher": name, "hash": v, "canonical": hs, "secret": "pw"}
+            try:
+                acc = h.identify(v)
+                obs = (acc, h.verify("pw", v, **kw) if acc else None, h.verify("pwx", v, **kw) if acc else None,
+                       (h.from_string(v).to_string() if hasattr(h, "from_string") else None) if acc else None)
+            except ValueError:
+                obs = (False, None, None, None)      # identify() is a loose pre-check; the parser refuses the spelling with the documented error
+            except Exception as e:  # noqa: BLE001
+                obs = errname(e) + ": " + str(e)[:80]
+            # either the spelling is not accepted at all, or it is the same hash: same answers, canonical re-rendering
+            ok = (isinstance(obs, tuple) and obs[0] is False) or (isinstance(obs, tuple) and obs[1] is True and obs[2] is False and obs[3] in (None, hs))
+            yield ("hex-case:" + name, inp, ok, obs, "rejected, or: verifies the same password and re-renders as " + hs)
+
+
+def libpass_phc_cases(rng):
+    """inspect_phc with one definition, a tuple and a list of definitions in every order: the record that matches one of them is parsed
+    by that one and re-renders unchanged; a record matching none gives None"""
+    from libpass.inspect.phc import inspect_phc
+    from libpass.inspect.phc.defs import Argon2PHC, BcryptSHA256PHCV2
+
+    b64 = "ABCDEFGHIJKLMNOPQRSTUVWXYZabcdefghijklmnopqrstuvwxyz0123456789+/"
+    recs = []
+    for _ in range(6):
+        salt = "".join(rng.choice(b64) for _ in range(rng.choice([11, 16, 22, 64])))
+        dig = "".join(rng.choice(b64) for _ in range(rng.choice([16, 43, 86])))
+        recs.append((f"$argon2{rng.choice(['id', 'i', 'd'])}$v=19$m={rng.choice([8, 65536])},t={rng.randrange(1, 9)},p={rng.randrange(1, 5)}${salt}${dig}", Argon2PHC))
+        recs.append((f"$bcrypt-sha256$v=2,t={rng.choice(['2a', '2b'])},r={rng.randrange(4, 32)}${salt[:22].ljust(22, 'A')}${dig[:31].ljust(31, 'A')}", BcryptSHA256PHCV2))
+    for rec, owner in recs:
+        other = BcryptSHA256PHCV2 if owner is Argon2PHC else Argon2PHC
+        for label, defs in (("single", owner), ("tuple-first", (owner, other)), ("tuple-last", (other, owner)), ("list-last", [other, owner]), ("list-first", [owner, other]), ("one-tuple", (owner,))):
+            inp = {"op": "phc", "record": rec, "definitions": label}
+            try:
+                r = inspect_phc(rec, defs)
+                obs = (type(r).__name__, r.as_str() if r is not None else None)
+            except Exception as e:  # noqa: BLE001
+                obs = errname(e) + ": " + str(e)[:80]
+            yield ("phc-definitions:" + label, inp, obs == (owner.__name__, rec), obs, (owner.__name__, rec))
+        try:
+            r = inspect_phc(rec, (other,))
+            obs = r if r is None else type(r).__name__
+        except Exception as e:  # noqa: BLE001
+            obs = errname(e)
+        yield ("phc-definitions:foreign", {"op": "phc", "record": rec, "definitions": "other-only"}, obs is None, obs, None)
+
+
+def class_switch_cases(rng):
+    """layout switches that are class attributes rather than using() settings (django_des_crypt.use_duplicate_salt): both layouts are
+    produced, parsed, re-rendered and verified without loss"""
+    base = fc.handler("django_des_crypt")
+    for flag in (True, False):
+        h = type("django_des_crypt_layout", (base,), {"use_duplicate_salt": flag})
+        for _ in range(4):
+            pw = "".join(rng.choice("abcXYZ019") for _ in range(rng.randrange(0, 12)))
+            inp = {"op": "class-switch", "hasher": "django_des_crypt", "use_duplicate_salt": flag, "secret": pw}
+            try:
+                hs = h.hash(pw)
+                obj = h.from_string(hs)
+                obs = (obj.to_string() == hs, h.verify(pw, hs), h.verify("~" + pw, hs), base.verify(pw, hs), len(obj.salt) >= 2 and hs.endswith(obj.salt[:2] + obj.checksum))
+            except Exception as e:  # noqa: BLE001
+                obs = errname(e) + ": " + str(e)[:80]
+            yield ("class-switch:django_des_crypt", inp, obs == (True, True, False, True, True), obs, (True, True, False, True, True))
 
 
 def _uncps(t):
